@@ -1,6 +1,9 @@
 package elliptic
 
 import (
+	"math/rand"
+	"fmt"
+	"sync"
 	"encoding/json"
 	"errors"
 	"math/big"
@@ -114,6 +117,13 @@ func runF(op string, in M) (M, M) {
 		sum := new(big.Int).Add(k, new(big.Int).SetBytes(d))
 		q, s := new(big.Int).DivMod(sum, n, new(big.Int))
 		return out, M{"q": vLimbs(q), "s": vLimbs(s)}
+	case "shift.par":
+		// the very first use of the curves in a process, from several goroutines at once (child process)
+		res, crashed := vChild("TestVerifFirstUse", in)
+		if crashed != "" {
+			res = crashed
+		}
+		return M{"panic": res}, M{}
 	case "shift.derive":
 		sc := slipCurve(in["curve"].(string))
 		seed := vBuf("slip10 seed", in["seed"])
@@ -135,7 +145,7 @@ func runF(op string, in M) (M, M) {
 			c2, e2 := pubParent.DeriveChild(idx)
 			// both parents go on deriving other children before the two results are compared
 			parent.DeriveChild((idx ^ 1) &^ slip10.Hardened)
-			pubParent.DeriveChild((idx ^ 1) &^ slip10.Hardened)
+			pubParent.DeriveChild((idx ^ 2) &^ slip10.Hardened)
 			out["priv_ok"], out["pub_ok"] = e1 == nil, e2 == nil
 			if e1 == nil {
 				p1 := c1.Public()
@@ -148,6 +158,49 @@ func runF(op string, in M) (M, M) {
 		return out, M{}
 	}
 	panic("unknown op " + op)
+}
+
+func TestVerifFirstUse(t *testing.T) {
+	in := vChildSpec()
+	if in == nil {
+		t.Skip()
+	}
+	rr := rand.New(rand.NewSource(int64(vIntOf(in["seed"]))))
+	const K = 8
+	ks := make([][]byte, K)
+	for i := range ks {
+		ks[i] = make([]byte, 32)
+		rr.Read(ks[i])
+		ks[i][0] &= 0x7f
+	}
+	pub := func(i int) string {
+		c := slipCurve([]string{"secp256k1", "p256"}[i%2])
+		k, err := c.NewPrivateKey(ks[i])
+		if err != nil {
+			return "err"
+		}
+		child, err := k.Shift(ks[(i+1)%K])
+		if err != nil {
+			return "err-shift"
+		}
+		return string(k.Public().Bytes()) + "|" + string(child.Public().Bytes())
+	}
+	got := make([]string, K)
+	var wg sync.WaitGroup
+	start := make(chan struct{})
+	for g := 0; g < K; g++ {
+		wg.Add(1)
+		go func(g int) { defer wg.Done(); <-start; got[g] = pub(g) }(g)
+	}
+	close(start)
+	wg.Wait()
+	msg := ""
+	for g := 0; g < K; g++ { // now, sequentially, in a process that has used the curves before
+		if pub(g) != got[g] {
+			msg = "verif: a public key computed during concurrent first use of the curve differs from the one computed later"
+		}
+	}
+	fmt.Println("VERIF-CHILD-OUT " + msg)
 }
 
 func TestVerifDriver(t *testing.T) {
@@ -177,6 +230,9 @@ func TestVerifDriver(t *testing.T) {
 	}
 	r := vRand(8)
 	n := vEnvInt("VERIF_N", 40)
+	if vEnvInt("VERIF_PAR_MS", 1200) > 0 {
+		emit("shift.par", M{"seed": r.Intn(1 << 30)})
+	}
 	pad32 := func(x *big.Int) []byte { return x.FillBytes(make([]byte, 32)) }
 	for k := 0; k < n; k++ {
 		name := []string{"secp256k1", "p256"}[k%2]
@@ -209,6 +265,12 @@ func TestVerifDriver(t *testing.T) {
 			r.Read(d)
 		}
 		emit("shift.b", M{"curve": name, "k": vInts(pad32(ks)), "d": vInts(d)})
+		if k%4 == 3 { // the same scalar and shift on the other curve right afterwards (both orders occur over a run)
+			other := []string{"p256", "secp256k1"}[k%2]
+			if ks.Cmp(curveByName(other).Params().N) < 0 {
+				emit("shift.b", M{"curve": other, "k": vInts(pad32(ks)), "d": vInts(d)})
+			}
+		}
 		seed := make([]byte, 16+r.Intn(49))
 		r.Read(seed)
 		path := make([]int, r.Intn(3))
